@@ -25,6 +25,8 @@ Arguments N.log2 : simpl never.
 Arguments N.shiftl : simpl never.
 Arguments npow2 : simpl never.
 Arguments rdown : simpl never.
+Arguments N.compare : simpl never.
+Arguments wsub : simpl never.
 
 (* ---------- the constants: source definitions = what the built crate reports ---------- *)
 Definition given_consts : env := [("FOOTER_SIZE", VN actual_footer)].
@@ -204,4 +206,59 @@ Proof.
   intros H. unfold call_fn, checked_add. cbn.
   destruct (used + extra <? W); cbn; [|reflexivity].
   replace (cap * 2 <? W) with true by (symmetry; apply N.ltb_lt; exact H). cbn. reflexivity.
+Qed.
+
+(* ---------- the fast path ---------- *)
+Definition self_chunk (start ptr : N) : env :=
+  [("self", VRec [("current_chunk_footer", VRec [("ptr", VN ptr); ("data", VN start)])])].
+
+Lemma wsub_small a b : b <= a -> a < W -> wsub a b = a - b.
+Proof.
+  intros H1 H2. unfold wsub. replace (a + W - b) with ((a - b) + 1 * W) by lia.
+  rewrite N.mod_add by (unfold W; lia). apply N.mod_small. lia.
+Qed.
+
+(* Bump::try_alloc_layout_fast: the pointer arithmetic of the fast path.  Hypotheses: the
+   chunk invariant start <= ptr < 2^64 and Layout's guarantee that rounding the size up to the
+   alignment does not overflow.  The store `footer.set_ptr(p)` stores the pointer returned. *)
+Lemma src_try_alloc_layout_fast_ok m e0 start ptr l :
+  pow2 m -> pow2 (l_align l) -> m < W -> l_align l < W -> ptr < W -> start <= ptr ->
+  l_size l + (l_align l - 1) < W ->
+  call_fn src_fns (List.app (self_chunk start ptr) (cenv m)) "try_alloc_layout_fast" [vlayout l]
+  = Ret (vopt (fast_ptr (actual m e0) start ptr l)).
+Proof.
+  intros Hm Hl Hmw Hlw Hp Hsp Hlay.
+  pose proof (pow2_pos _ Hm) as Hm0. pose proof (pow2_pos _ Hl) as Hl0.
+  unfold fast_ptr. cbn [k_malign actual].
+  unfold call_fn. cbn.
+  assert (T1 : (1 <=? l_align l) = true) by (apply N.leb_le; lia).
+  assert (T2 : (1 <=? m) = true) by (apply N.leb_le; lia).
+  assert (T3 : (start <=? ptr) = true) by (apply N.leb_le; lia).
+  assert (T4 : (l_size l + (l_align l - 1) <? W) = true) by (apply N.ltb_lt; exact Hlay).
+  assert (R : N.land (l_size l + (l_align l - 1)) (lnot64 (l_align l - 1)) = rup (l_size l) (l_align l)).
+  { rewrite land_lnot64 by exact Hlay.
+    change (N.ldiff (l_size l + (l_align l - 1)) (l_align l - 1)) with (rdown_mask (l_size l + (l_align l - 1)) (l_align l)).
+    rewrite mask_rdown by exact Hl. reflexivity. }
+  destruct (l_align l ?= m) eqn:C; cbn.
+  - repeat (rewrite ?T1, ?T3, ?T4; cbn). rewrite R.
+    destruct (ptr - start <? rup (l_size l) (l_align l)) eqn:E; cbn; [reflexivity|].
+    apply N.ltb_ge in E. rewrite wsub_small by lia. reflexivity.
+  - rewrite T2. cbn. unfold round_up_to, checked_add.
+    destruct (l_size l + (m - 1) <? W) eqn:E1; cbn; [|reflexivity].
+    repeat (rewrite ?T2, ?T3; cbn).
+    apply N.ltb_lt in E1. rewrite land_lnot64 by exact E1.
+    change (N.ldiff (l_size l + (m - 1)) (m - 1)) with (rdown_mask (l_size l + (m - 1)) m).
+    rewrite mask_rdown by exact Hm.
+    destruct (ptr - start <? rdown (l_size l + (m - 1)) m) eqn:E; cbn; [reflexivity|].
+    apply N.ltb_ge in E. rewrite wsub_small by lia. reflexivity.
+  - repeat (rewrite ?T1, ?T3, ?T4; cbn). rewrite R.
+    change (N.land ptr (l_align l - 1)) with (low_mask ptr (l_align l)). rewrite mask_low by exact Hl.
+    assert (Q : wsub ptr (ptr mod l_align l) = rdown ptr (l_align l)).
+    { rewrite wsub_small; [rewrite rdown_sub_mod by lia; reflexivity | apply N.mod_le; lia | exact Hp]. }
+    rewrite Q.
+    pose proof (rdown_le ptr (l_align l)) as RL.
+    destruct (rdown ptr (l_align l) <? start) eqn:E0; cbn; [reflexivity|].
+    apply N.ltb_ge in E0. rewrite (wsub_small (rdown ptr (l_align l)) start) by lia.
+    destruct (rdown ptr (l_align l) - start <? rup (l_size l) (l_align l)) eqn:E; cbn; [reflexivity|].
+    apply N.ltb_ge in E. rewrite wsub_small by lia. reflexivity.
 Qed.
